@@ -369,15 +369,101 @@ fn splice_subs_for<B: Backend>(out: &mut Vec<SubCheck>) {
     ));
 }
 
+// ---------------------------------------------------------------------------
+// a genuine token whose header text is rewritten to another payload encoding's suffix was never
+// sealed for that encoding: its decoder and validator must not run
+
+/// the recording payload type under a non-empty encoding suffix
+pub struct ProbeS(pub Vec<u8>);
+impl Payload for ProbeS {
+    const SUFFIX: &'static str = ".x1";
+    fn encode(self, mut w: impl WriteBytes) -> Result<(), Box<dyn std::error::Error + Send + Sync>> {
+        w.write(&self.0);
+        Ok(())
+    }
+    fn decode(payload: &[u8]) -> Result<Self, Box<dyn std::error::Error + Send + Sync>> {
+        TRACE.with(|t| t.borrow_mut().push("decode"));
+        Ok(ProbeS(payload.to_vec()))
+    }
+}
+struct ProbeSValidator;
+impl Validate for ProbeSValidator {
+    type Claims = ProbeS;
+    fn validate(&self, _claims: &ProbeS) -> Result<(), PasetoError> {
+        TRACE.with(|t| t.borrow_mut().push("validate"));
+        Ok(())
+    }
+}
+
+fn enc_relabel_case<B: Backend>(c: &c02::EncCase, acc: &mut Acc) -> R {
+    use paseto_core::tokens::UnsealedToken;
+    let name = B::NAME;
+    let purpose = if c.public { "public" } else { "local" };
+    rng::reseed_case(hash_of(&(&c.key, &c.msg)));
+    let (m, f, i) = (c.msg.bytes(), c.footer.bytes(), c.assertion.bytes());
+    let plain_h = format!("{}.{purpose}.", B::VER.v());
+    let sfx_h = format!("{}.x1.{purpose}.", B::VER.v());
+    macro_rules! go {
+        ($P:ty, $sk:expr, $uk:expr) => {{
+            // sealed under one encoding ...
+            let s = if c.from_suffixed {
+                UnsealedToken::<V<B>, $P, ProbeS>::new(ProbeS(m.clone())).with_footer(f.clone()).seal(&$sk, &i).map(|t| t.to_string())
+            } else {
+                UnsealedToken::<V<B>, $P, Probe>::new(Probe(m.clone())).with_footer(f.clone()).seal(&$sk, &i).map(|t| t.to_string())
+            }
+            .map_err(|e| Fail::new(format!("C12/{name}/{purpose}/encoding-relabel/seal-failed"), format!("{e}")))?;
+            // ... offered under the other one
+            trace_take();
+            let (r_ok, trace) = if c.from_suffixed {
+                let t = format!("{plain_h}{}", &s[sfx_h.len()..]);
+                let r = t.parse::<SealedToken<V<B>, $P, Probe, Vec<u8>>>().and_then(|t| t.unseal(&$uk, &i, &ProbeValidator { accept: true })).is_ok();
+                (r, trace_take())
+            } else {
+                let t = format!("{sfx_h}{}", &s[plain_h.len()..]);
+                let r = t.parse::<SealedToken<V<B>, $P, ProbeS, Vec<u8>>>().and_then(|t| t.unseal(&$uk, &i, &ProbeSValidator)).is_ok();
+                (r, trace_take())
+            };
+            crate::ensure!(
+                trace.is_empty() && !r_ok,
+                format!("C12/{name}/{purpose}/encoding-relabel/decoder-or-validator-ran"),
+                "a token sealed under one payload encoding and relabelled to the other reached {:?} (result ok: {r_ok})",
+                trace
+            );
+        }};
+    }
+    if c.public {
+        let sk = secret_key::<B>(&c.key);
+        let pk = sk.public_key();
+        go!(Public, sk, pk);
+    } else {
+        let k = local_key::<B>(&c.key);
+        go!(Local, k, k);
+    }
+    acc.eval();
+    acc.nt(hash_of(&(name, purpose, &c.key, &c.msg, c.from_suffixed)));
+    acc.class("mutant:relabel-encoding-suffix");
+    Ok(())
+}
+
+fn enc_subs_for<B: Backend>(out: &mut Vec<SubCheck>) {
+    let cases = match B::NAME {
+        "paseto-v1" => (40, 400),
+        "paseto-v3" => (60, 800),
+        _ => (200, 4000),
+    };
+    out.push(SubCheck::prop(format!("c12.encoding-relabel/{}", B::NAME), 3, cases, |_t| c02::enc_strategy::<B>(), enc_relabel_case::<B>));
+}
+
 pub fn def() -> PropertyDef {
     let mut subs = Vec::new();
     crate::for_backends!(B => subs_for::<B>(&mut subs));
     crate::for_backends!(B => typed_subs_for::<B>(&mut subs));
     crate::for_backends!(B => splice_subs_for::<B>(&mut subs));
+    crate::for_backends!(B => enc_subs_for::<B>(&mut subs));
     PropertyDef {
         id: "C12",
         level: "fault_enumeration",
-        rule: "the C02 mutation catalogue (bit flips, truncations, extensions, boundary shifts, footer/assertion edits, other keys) applied to PAIRS of tokens that differ in one plaintext byte (decodable / undecodable), unsealed with a payload type and a validator that record invocations; oracle: for every failing token the trace is empty, the error is never PayloadError and its variant is the same for both pair members; footers of a structured type rewritten to other bytes with the same decoded value count as corruption too, and so do the re-split tokens of c02.length-alias-splices (a genuine tag on a message cut at t with the remainder moved into the footer); controls: authentic token gives [decode, validate] exactly once each, a rejecting validator gives ClaimsError, an undecodable authentic payload gives PayloadError after one decode. Non-trivial iff the mutant is long enough to reach the cryptographic check; distinct by (token, class, position). The accessor clause (only unverified_footer() exposes the footer) is decided by generated compile probes in ./check C18 (catalogue class `sealed-token-field`).",
+        rule: "the C02 mutation catalogue (bit flips, truncations, extensions, boundary shifts, footer/assertion edits, other keys) applied to PAIRS of tokens that differ in one plaintext byte (decodable / undecodable), unsealed with a payload type and a validator that record invocations; oracle: for every failing token the trace is empty, the error is never PayloadError and its variant is the same for both pair members; footers of a structured type rewritten to other bytes with the same decoded value count as corruption too, as do tokens whose header is rewritten to another payload encoding's suffix, and so do the re-split tokens of c02.length-alias-splices (a genuine tag on a message cut at t with the remainder moved into the footer); controls: authentic token gives [decode, validate] exactly once each, a rejecting validator gives ClaimsError, an undecodable authentic payload gives PayloadError after one decode. Non-trivial iff the mutant is long enough to reach the cryptographic check; distinct by (token, class, position). The accessor clause (only unverified_footer() exposes the footer) is decided by generated compile probes in ./check C18 (catalogue class `sealed-token-field`).",
         assumptions: vec!["footers are Vec<u8> (Footer::decode at parse time is by design and not what C12 forbids)"],
         subs,
     }
